@@ -425,7 +425,48 @@ def run(ck, prog, ctx):
     for K, (stem, plural, rec) in sorted(KINDS.items()):
         db_ = prog.body(B + ("add_genes_from_bytes" if K == "Gene" else "add_%s_from_bytes" % stem))
         if db_ is not None:
-            check_required_steps(ck, "PAIR", prog, db_, [("propagate every term of a decoded record", lambda t: bool(re.search(r"::link_\w+_term$", t.callee.res or ""))), ("store every decoded record", lambda t: t.callee.method == "insert" and "HashMap" in (t.callee.def_args or ""))])
+            steps_ = [("propagate every term of a decoded record", lambda t: bool(re.search(r"::link_\w+_term$", t.callee.res or ""))), ("store every decoded record", lambda t: t.callee.method == "insert" and "HashMap" in (t.callee.def_args or ""))]
+            # a decoder that stores / propagates in another spelling (records collected by a generic helper and `extend`ed into the map; the direct
+            # term writer applied to a merged ancestor set): the step rule does not read that form
+            from props.shared import decoder_step_alternatives
+            st_alt, pr_alt = decoder_step_alternatives(prog, pv, db_, plural, stem)
+            fam_db = prog.family(db_)
+            has = lambda pred: any(pred(t_) for fb_ in fam_db for _, t_ in fb_.calls())
+            keep_ = []
+            for (lab_, pred_), alt_ in zip(steps_, (pr_alt, st_alt)):
+                if not has(pred_) and alt_:
+                    ck.undecided("PAIR", "required-step/%s/%s" % (db_.short, lab_), "%s performs `%s` in another form (%s): not read by the step rule" % (db_.short, lab_, alt_), where=db_.where())
+                else:
+                    keep_.append((lab_, pred_))
+            check_required_steps(ck, "PAIR", prog, db_, keep_)
+            # every record that was decoded is stored: in the loop that decodes, no way from the decode back to the loop head goes round the store
+            # (`let Some(first) = terms.next() else { continue }` in front of the push drops records without terms)
+            from engines import private_scope as _ps2
+            for xb in [db_] + [y for y in _ps2(prog, db_) if y.id != db_.id and y.kind in ("Fn", "AssocFn")]:
+                for h_, bl_ in xb.natural_loops().items():
+                    decs_ = [bi for bi in bl_ if xb.blocks[bi].term.k == "call" and xb.blocks[bi].term.callee.method in ("try_from", "from_bytes", "try_into") and xb.loop_of(bi) and xb.loop_of(bi)[0] == h_]
+                    if not decs_:
+                        continue
+                    stores_ = set()
+                    for bi in bl_:
+                        t_ = xb.blocks[bi].term
+                        if t_.k == "call" and t_.callee.method in ("push", "insert", "extend", "or_insert", "or_insert_with") and len(t_.args) >= 2:
+                            if any(a[0] == "call" and a[3] == xb.id and a[4] in decs_ for x_ in t_.args[1:] for a in pvn.of_operand(xb, x_)):
+                                stores_.add(bi)
+                    if not stores_:
+                        continue
+                    seen_, st_ = set(), [xb.blocks[decs_[0]].term.target] if xb.blocks[decs_[0]].term.target is not None else []
+                    dropped = False
+                    while st_:
+                        x_ = st_.pop()
+                        if x_ == h_:
+                            dropped = True
+                            break
+                        if x_ in seen_ or x_ in stores_ or x_ not in bl_:
+                            continue
+                        seen_.add(x_)
+                        st_.extend(xb.succ[x_])
+                    ck.ob("PAIR", "decoder-loop/%s/%s/stores-every-record" % (db_.short, xb.short), not dropped, "%s: %s" % (xb.short, "every record decoded in the loop is stored before the next one is read" if not dropped else "a decoded record can be DROPPED: some path from the decode back to the loop head goes round the store (a `continue` / guard in front of it)"), where=xb.where(xb.blocks[decs_[0]].term.line))
 
     # ------------------------------------------------------------------ PHASE: writers of the records' `hpos`
     rec_rx = r"annotations::(gene::Gene|omim_disease::OmimDisease|orpha_disease::OrphaDisease)$"
